@@ -42,3 +42,17 @@ Definition check_mcase (c : mcase) : list nat :=
 Definition scase := (list (Z * (list op * list op)) * list op * option (list op) * obs)%type.
 Definition check_scase (c : scase) : list nat :=
   let '(mws, h, err, o) := c in check_case (server_ops mws h err, o).
+
+(* registration with groups: the history of middleware()/group()/route registrations and the observed
+   trace of every route in registration order; failing clause = 1 + index of the route whose trace differs,
+   0 = the number of routes differs *)
+Definition gcase := (list rop * list (list (nat * nat)))%type.
+Fixpoint check_routes (i : nat) (sts : list (list entry)) (trs : list (list (nat * nat))) : list nat :=
+  match sts, trs with
+  | [], [] => []
+  | st :: sr, tr :: tr' =>
+      (if trace_eqb (map ev_code (apply_middlewares [Final] st)) tr then [] else [S i]) ++ check_routes (S i) sr tr'
+  | _, _ => [0%nat]
+  end.
+Definition check_gcase (c : gcase) : list nat :=
+  let (h, trs) := c in check_routes 0 (routes (rrun h)) trs.
